@@ -51,7 +51,7 @@ PROPS = {
             part('big', LOAD, 16, 600, judge=True, props=['C13'], chunk=2, ns=[16, 32, 64], kind='static'),
             part('storm', LOAD, 500, 8000, judge=True, props=['C13'], chunk=25, ns=[2, 3], storm=1.0, caps=[1024]),
             part('restore', RESTOREBATCH, 150, 3000, judge=True, props=['C13'], chunk=15),
-            part('churn', LOAD, 150, 3000, judge=True, props=['C13'], chunk=10, ns=[8, 16], churn=1.0, storm=0.0, caps=[1024, 1024, 4]),
+            part('churn', LOAD, 350, 5000, judge=True, props=['C13'], chunk=10, ns=[8, 16], churn=1.0, storm=0.0, caps=[1024, 1024, 4]),
         ],
     },
     'C12': {
